@@ -75,6 +75,17 @@ type Exec struct {
 
 type abortExec struct{}
 
+// IsControl reports whether a recovered panic value is one of the explorer's
+// own control-flow panics (end of execution, replay divergence). A harness
+// that recovers panics of the code under test must re-raise these.
+func IsControl(r any) bool {
+	switch r.(type) {
+	case abortExec, divergedExec:
+		return true
+	}
+	return false
+}
+
 type divergedExec struct{}
 
 // Chooser is handed to the harness body for one execution.
